@@ -651,6 +651,7 @@ Section Commit.
         apply H_ret. intros t ->. auto.
       + intros e O. apply H_false_pre. auto.
       + intros e O. apply H0_false.
+      + auto.
     - intros r. apply H_pure. intros ->. fold i.
       eapply H_conseq with (T := JP l1) (Q := fun r t => r = i /\ JP l6 t) (E := fun _ => Base) (K := Base); auto.
       2: { intros t A. now apply AcqPost_JP1. }
@@ -661,3 +662,245 @@ Section Commit.
       { eapply H_conseq; [apply keeps_rm_orphaned_files | auto | auto | intros e t X; exact (JP_Base _ _ X) | intros t X; exact (JP_Base _ _ X)]. }
       apply H_ret. auto.
   Qed.
+
+  (** ** the global predicates *)
+  Definition OLD (t : tree) : Prop := same_at Mo t t0.
+  Definition CS_S (t : tree) : Prop := forall d, In d (i_man i) -> lookup t (So ++ d) = lookup t0 (So ++ d).
+  Definition CS_M (t : tree) : Prop := forall d, In d (i_man i) -> lookup t (Mo ++ d) = lookup t0 (So ++ d).
+
+  Lemma Base_OLD t : Base t -> OLD t.
+  Proof. intros B x U. now apply Base_main. Qed.
+
+  Lemma Base_CS_S t : Base t -> CS_S t.
+  Proof. now intros [_ B]. Qed.
+
+  Lemma src_dest_disjoint a : under (So ++ [a]) (Mo ++ [a]) = false /\ under (Mo ++ [a]) (So ++ [a]) = false.
+  Proof.
+    split.
+    - destruct (under (So ++ [a]) (Mo ++ [a])) eqn:E; [|reflexivity].
+      apply under_app_inv in E. rewrite (under_Mo_not_So _ (under_app Mo [a])) in E. discriminate.
+    - destruct (under (Mo ++ [a]) (So ++ [a])) eqn:E; [|reflexivity].
+      apply under_app_inv in E. rewrite (under_So_not_Mo _ (under_app So [a])) in E. discriminate.
+  Qed.
+
+  (** ** install of a first version: one rename of the whole staged object *)
+  Section NewObject.
+    Variable t1 : tree.
+    Hypothesis J1 : JP l6 t1.
+    Hypothesis Absent : forall x, under Mo x = true -> lookup t0 x = None.
+
+    Definition NI (t : tree) : Prop :=
+      (forall x, under Mo x = true -> lookup t x = None) /\
+      (forall x, under So x = true -> lookup t x = lookup t1 x).
+
+    Lemma stable_NI : stable NI (fun p => under Mo p = true \/ under So p = true).
+    Proof.
+      intros t t' p [N1 N2] O B. split; intros x U; (rewrite O; [auto|]); intros ->; apply B; auto.
+    Qed.
+
+    Lemma NI_t1 : NI t1.
+    Proof. split; [|reflexivity]. intros x U. rewrite (Base_main t1 x (JP_Base _ _ J1) U). now apply Absent. Qed.
+
+    Definition NObjPost (t : tree) : Prop :=
+      (forall x, lookup t (Mo ++ x) = lookup t1 (So ++ x)) /\ (forall x, under So x = true -> lookup t x = None).
+
+    Lemma prefix_parent_Mo_good q : under q (parent Mo) = true -> ~ (under Mo q = true \/ under So q = true).
+    Proof.
+      intros U [X | X].
+      - pose proof (under_trans _ _ _ X U) as Y. apply under_length in Y.
+        destruct (nonempty_last Mo Mo_ne) as [l [a E]]. rewrite E, parent_app, app_length in Y. cbn in Y. lia.
+      - pose proof (under_trans _ _ _ X (under_trans _ _ _ U (under_parent Mo))) as Y.
+        pose proof (ok_so_mo c CO) as Z. fold So Mo in Z. congruence.
+    Qed.
+
+    Lemma H_write_new_object :
+      H NI (write_new_object c) (fun _ => NObjPost) (fun _ => NI) NI.
+    Proof.
+      unfold write_new_object. fold So Mo.
+      eapply H_andthen; [apply H_ensure_open; auto|].
+      apply H_get_tree. intros t2 N2.
+      assert (EX : exists_at t2 Mo = false).
+      { unfold exists_at. rewrite node_at_lookup by apply Mo_ne. destruct N2 as [N2 _]. now rewrite (N2 Mo (under_refl _)). }
+      rewrite EX.
+      eapply H_conseq with (T := NI) (Q := fun _ => NObjPost) (E := fun _ => NI) (K := NI); auto.
+      2: { intros t ->. exact N2. }
+      eapply H_andthen with (Q1 := fun t => NI t /\ is_dir t (parent Mo) = true).
+      - destruct (path_eq_dec (parent Mo) []) as [E0 | NE].
+        + rewrite E0. eapply H_conseq; [apply (keeps_cda_existing NI []); reflexivity | auto | | auto | auto].
+          intros u t N. split; [exact N | reflexivity].
+        + apply (H_create_dir_all_post NI _ stable_NI (parent Mo) NE).
+          intros q U t t' _ _. now apply prefix_parent_Mo_good.
+      - apply H_step.
+        + intros t [[N1 N3] D]. cbn [apply_step].
+          assert (SoD : lookup t So = Some Dir).
+          { rewrite (N3 So (under_refl _)). apply (Pts_l6 t1 So (Some Dir) J1). cbn. auto 10. }
+          rewrite (fs_rename_fresh t So Mo So_ne Mo_ne); auto.
+          * split.
+            -- intros x. rewrite lookup_rename_fresh; auto; [|apply (ok_so_mo c CO) | apply (ok_mo_so c CO)].
+               rewrite under_app. rewrite skipn_app, skipn_all, Nat.sub_diag. cbn [skipn app]. apply N3, under_app.
+            -- intros x U. rewrite lookup_rename_fresh; auto; [|apply (ok_so_mo c CO) | apply (ok_mo_so c CO)].
+               rewrite (under_So_not_Mo _ U), U. reflexivity.
+          * congruence.
+          * apply (ok_so_mo c CO).
+          * apply (ok_mo_so c CO).
+          * apply N1, under_refl.
+        + intros t [N _]. exact N.
+        + intros t [N _]. exact N.
+    Qed.
+
+    Lemma NI_OLD t : NI t -> OLD t.
+    Proof. intros [N _] x U. rewrite (N x U). symmetry. now apply Absent. Qed.
+
+    Lemma NI_CS_S t : NI t -> CS_S t.
+    Proof. intros [_ N] d I. rewrite (N _ (under_app So d)). now apply (Base_CS_S t1 (JP_Base _ _ J1)). Qed.
+
+    Lemma NObjPost_CS_M t : NObjPost t -> CS_M t.
+    Proof. intros [N _] d I. rewrite N. now apply (Base_CS_S t1 (JP_Base _ _ J1)). Qed.
+  End NewObject.
+
+  Lemma H_step_eq s ta tb (Q : unit -> tree -> Prop) (E : cerr -> tree -> Prop) (K : tree -> Prop) :
+    apply_step s ta = FOk tb -> Q tt tb -> E EInjected ta -> K ta -> H (fun t => t = ta) (step s) Q E K.
+  Proof.
+    intros A Hq He Hk. apply H_step; intros t ->; auto. now rewrite A.
+  Qed.
+
+  Lemma H0_step_eq s ta tb (Q : unit -> tree -> Prop) (E : cerr -> tree -> Prop) :
+    apply_step s ta = FOk tb -> Q tt tb -> H0 (fun t => t = ta) (step s) Q E.
+  Proof. intros A Hq. apply H0_step. intros t ->. now rewrite A. Qed.
+
+  (** ** install of a further version (the type of the inventory unchanged) *)
+  Section NewVersion.
+    Variable t1 : tree.
+    Hypothesis J1 : JP l6 t1.
+    Variables (k0 : N) (vs0 : list fseg) (spec0 : fseg) (man0 dups0 : list fpath) (osd : content).
+    Hypothesis V0 : vs0 <> [].
+    Hypothesis VS : i_vs i0 = vs0 ++ [h].
+    Hypothesis MoD : lookup t0 Mo = Some Dir.
+    Hypothesis MInv : lookup t0 (Mo ++ [c_inv c]) = Some (File (CInv k0 vs0 spec0 man0 dups0)).
+    Hypothesis MSide : lookup t0 (Mo ++ [c_side c]) = Some (File osd).
+    Hypothesis Free : forall x, under (Mo ++ [h]) x = true -> lookup t0 x = None.
+    Hypothesis SameSpec : i_spec i0 = spec0.
+
+    Let src := So ++ [h].
+    Let dest := Mo ++ [h].
+    Let oinv := CInv k0 vs0 spec0 man0 dups0.
+    Let pinv := Mo ++ [c_inv c].
+    Let pside := Mo ++ [c_side c].
+
+    Definition s1 : tree := map (rekey src dest) (remove dest t1).
+    Definition s2 : tree := insert pinv (File CPartial) s1.
+    Definition s3 : tree := insert pinv (File tok) s2.
+    Definition s4 : tree := insert pside (File CPartial) s3.
+    Definition s5 : tree := insert pside (File sd) s4.
+
+    Lemma t1_main x : under Mo x = true -> lookup t1 x = lookup t0 x.
+    Proof. apply Base_main, (JP_Base _ _ J1). Qed.
+
+    Lemma t1_free x : under dest x = true -> lookup t1 x = None.
+    Proof.
+      intros U. rewrite t1_main; [now apply Free|]. eapply under_trans; [apply under_app | exact U].
+    Qed.
+
+    Lemma s1_lookup x :
+      lookup s1 x = if under dest x then lookup t1 (src ++ skipn (List.length dest) x)
+                    else if under src x then None else lookup t1 x.
+    Proof.
+      unfold s1. destruct (src_dest_disjoint h) as [D1 D2]. apply lookup_rename_fresh; auto. apply t1_free.
+    Qed.
+
+    Lemma Mo_sub_not_under_dest a x : a <> h -> under dest (Mo ++ a :: x) = false.
+    Proof. intros N. unfold dest. apply under_single_neq. congruence. Qed.
+
+    Lemma Mo_sub_not_under_src x : under src (Mo ++ x) = false.
+    Proof.
+      destruct (under src (Mo ++ x)) eqn:E; [|reflexivity]. apply under_app_inv in E.
+      rewrite (under_Mo_not_So _ (under_app Mo x)) in E. discriminate.
+    Qed.
+
+    Lemma s1_pinv : lookup s1 pinv = Some (File oinv).
+    Proof.
+      rewrite s1_lookup. unfold pinv. rewrite (Mo_sub_not_under_dest (c_inv c) []) by (apply not_eq_sym, h_inv).
+      rewrite Mo_sub_not_under_src. rewrite t1_main by apply under_app. exact MInv.
+    Qed.
+
+    Lemma s1_pside : lookup s1 pside = Some (File osd).
+    Proof.
+      rewrite s1_lookup. unfold pside. rewrite (Mo_sub_not_under_dest (c_side c) []) by (apply not_eq_sym, h_side).
+      rewrite Mo_sub_not_under_src. rewrite t1_main by apply under_app. exact MSide.
+    Qed.
+
+    Lemma s1_dest_sub x : lookup s1 (dest ++ x) = lookup t1 (src ++ x).
+    Proof. rewrite s1_lookup, under_app, skipn_app, skipn_all, Nat.sub_diag. reflexivity. Qed.
+
+    Lemma pinv_pside : pinv <> pside.
+    Proof. unfold pinv, pside. intros E. apply app_single_inj in E. now apply inv_side. Qed.
+
+    Definition RBpre (t : tree) : Prop :=
+      (forall x, x <> pinv -> x <> pside -> lookup t x = lookup s1 x) /\
+      (exists c1, lookup t pinv = Some (File c1)) /\ (exists c2, lookup t pside = Some (File c2)).
+
+    Lemma RBpre_s1 : RBpre s1.
+    Proof. split; [reflexivity|]. split; [rewrite s1_pinv | rewrite s1_pside]; eauto. Qed.
+
+    Lemma RBpre_ins_inv t cnt : RBpre t -> RBpre (insert pinv (File cnt) t).
+    Proof.
+      intros (R1 & R2 & R3). split; [|split].
+      - intros x N1 N2. rewrite lookup_insert_neq by congruence. now apply R1.
+      - rewrite lookup_insert_eq. eauto.
+      - rewrite lookup_insert_neq by apply pinv_pside. exact R3.
+    Qed.
+
+    Lemma RBpre_ins_side t cnt : RBpre t -> RBpre (insert pside (File cnt) t).
+    Proof.
+      intros (R1 & R2 & R3). split; [|split].
+      - intros x N1 N2. rewrite lookup_insert_neq by congruence. now apply R1.
+      - rewrite lookup_insert_neq by (apply not_eq_sym, pinv_pside). exact R2.
+      - rewrite lookup_insert_eq. eauto.
+    Qed.
+
+    Lemma RBpre_s2 : RBpre s2. Proof. apply RBpre_ins_inv, RBpre_s1. Qed.
+    Lemma RBpre_s3 : RBpre s3. Proof. apply RBpre_ins_inv, RBpre_s2. Qed.
+    Lemma RBpre_s4 : RBpre s4. Proof. apply RBpre_ins_side, RBpre_s3. Qed.
+    Lemma RBpre_s5 : RBpre s5. Proof. apply RBpre_ins_side, RBpre_s4. Qed.
+
+    Lemma pinv_ne : pinv <> []. Proof. unfold pinv. now destruct Mo. Qed.
+    Lemma pside_ne : pside <> []. Proof. unfold pside. now destruct Mo. Qed.
+
+    (** the two copies into the object root, every event considered *)
+    Definition KV (t : tree) : Prop := In t [t1; s1; s2; s3; s4; s5].
+    Definition E1V (e : cerr) (t : tree) : Prop := is_os e = false /\ RBpre t.
+
+    Lemma H_copy_root :
+      H (fun t => t = s1) (copy_inventory_files c dest Mo) (fun _ t => t = s5) E1V KV.
+    Proof.
+      unfold copy_inventory_files. fold pinv pside.
+      eapply H_andthen with (Q1 := fun t => t = s3).
+      - unfold copy_file. apply H_get_tree. intros ? ->.
+        assert (R : read_file s1 (dest ++ [c_inv c]) = Some tok).
+        { apply read_file_lookup. rewrite s1_dest_sub. unfold src. rewrite <- app_assoc. apply (Pts_l6 t1 _ _ J1). cbn. auto. }
+        rewrite R.
+        eapply H_andthen with (Q1 := fun t => t = s2).
+        { apply (H_step_eq _ s1 s2); [cbn; apply (fs_trunc_file _ _ _ pinv_ne s1_pinv) | reflexivity | split; [reflexivity | apply RBpre_s1] | cbn; auto]. }
+        eapply H_andthen with (Q1 := fun t => t = s2).
+        { apply (H_step_eq _ s2 s2); [reflexivity | reflexivity | split; [reflexivity | apply RBpre_s2] | cbn; auto]. }
+        eapply H_andthen with (Q1 := fun t => t = s3).
+        { apply (H_step_eq _ s2 s3); [cbn; apply (fs_finish_file _ _ _ CPartial pinv_ne); apply lookup_insert_eq | reflexivity | split; [reflexivity | apply RBpre_s2] | cbn; auto]. }
+        apply (H_step_eq _ s3 s3); [reflexivity | reflexivity | split; [reflexivity | apply RBpre_s3] | cbn; auto 10].
+      - unfold copy_file. apply H_get_tree. intros ? ->.
+        assert (R : read_file s3 (dest ++ [c_side c]) = Some sd).
+        { apply read_file_lookup. unfold s3, s2. rewrite !lookup_insert_neq.
+          - rewrite s1_dest_sub. unfold src. rewrite <- app_assoc. apply (Pts_l6 t1 _ _ J1). cbn. auto.
+          - unfold pinv, dest. rewrite <- app_assoc. apply app_neq_len. cbn. lia.
+          - unfold pinv, dest. rewrite <- app_assoc. apply app_neq_len. cbn. lia. }
+        rewrite R.
+        assert (S3 : lookup s3 pside = Some (File osd)).
+        { unfold s3, s2. rewrite !lookup_insert_neq by apply pinv_pside. apply s1_pside. }
+        eapply H_andthen with (Q1 := fun t => t = s4).
+        { apply (H_step_eq _ s3 s4); [cbn; apply (fs_trunc_file _ _ _ pside_ne S3) | reflexivity | split; [reflexivity | apply RBpre_s3] | cbn; auto 10]. }
+        eapply H_andthen with (Q1 := fun t => t = s4).
+        { apply (H_step_eq _ s4 s4); [reflexivity | reflexivity | split; [reflexivity | apply RBpre_s4] | cbn; auto 10]. }
+        eapply H_andthen with (Q1 := fun t => t = s5).
+        { apply (H_step_eq _ s4 s5); [cbn; apply (fs_finish_file _ _ _ CPartial pside_ne); apply lookup_insert_eq | reflexivity | split; [reflexivity | apply RBpre_s4] | cbn; auto 10]. }
+        apply (H_step_eq _ s5 s5); [reflexivity | reflexivity | split; [reflexivity | apply RBpre_s5] | cbn; auto 10].
+    Qed.
+  End NewVersion.
